@@ -2373,11 +2373,13 @@ class ktensor:
             show_mode_titles = True
         if title is not None:
             show_title = True
+        # Plot a copy so that visualizing never changes the receiver
+        model = self.copy()
         if normalize:
-            self.normalize(normtype=norm, sort=True)
+            model.normalize(normtype=norm, sort=True)
 
         # compute factor weights (and optionally normalize)
-        weights = self.weights
+        weights = model.weights
         weight_labels = [format(w, ".2e") for w in weights]
         if rel_weights:
             weights /= np.max(weights)
@@ -2392,12 +2394,12 @@ class ktensor:
         )
 
         # compute y lims for each mode
-        y_lims = [[np.min(A), np.max(A)] for A in self.factor_matrices]
+        y_lims = [[np.min(A), np.max(A)] for A in model.factor_matrices]
 
         # plot data on each axis
         for k in range(m):  # loop over modes
             is_first_col = k == 0
-            U = self.factor_matrices[k].T  # r x n_k
+            U = model.factor_matrices[k].T  # r x n_k
             for j in range(r):  # loop over components (rows of U)
                 is_first_row = j == 0
                 is_last_row = j == r - 1
